@@ -74,6 +74,7 @@ template <class E> struct Impl {
         case ACOSH: return ad::acosh(a);
         case ABS: return ad::abs(a);
         case ATAN2_ES: return ad::atan2(a, s);
+        case ATAN2_SE: return ad::atan2(s, a);
         case MIN_ES: return ad::min(a, s);
         case MIN_SE: return ad::min(s, a);
         case MAX_ES: return ad::max(a, s);
